@@ -126,6 +126,7 @@ type Explorer struct {
 	Truncated   bool
 	InitWarnings map[string]int
 	ForkSites    map[string]int
+	Traces       []string
 }
 
 func NewExplorer(ld *Loaded, entry *ssa.Function, cfg *RunConfig) *Explorer {
@@ -292,6 +293,9 @@ func (vm *VM) runPath(entry *ssa.Function, prefix []int32) {
 	ex.Oblig += P.Oblig
 	ex.Discharged += P.Discharged
 	ex.EndReasons[reason]++
+	if vm.cfg.Concrete != nil {
+		ex.Traces = append(ex.Traces, P.trace...)
+	}
 	for l := range P.reach {
 		ex.Reach[l]++
 	}
